@@ -44,10 +44,10 @@ Lemma exec_cons e s r :
 Proof. reflexivity. Qed.
 
 Lemma run_exec e ss evs res :
-  run e ss = (evs, res) ->
+  target_run e ss = (evs, res) ->
   exists o, exec_list e ss = (evs, o) /\ res = match o with Some r => r | None => FellOff end.
 Proof.
-  unfold run. destruct (exec_list e ss) as [ev o]. intros [= <- <-]. eauto.
+  unfold target_run. destruct (exec_list e ss) as [ev o]. intros [= <- <-]. eauto.
 Qed.
 
 (* induction over the derivation of [check s ss = true] *)
@@ -109,19 +109,19 @@ Qed.
 (* ------------------------------------------------------------ C12_validate_first *)
 Lemma validate_first e ss :
   shape_ok ss = true -> validf e VPlatform VBoard = false ->
-  run e ss = ([], Raised ValueError).
+  target_run e ss = ([], Raised ValueError).
 Proof.
   intros OK V. destruct (shape_head _ OK) as (r & s2 & -> & _ & _).
-  unfold run. cbn. rewrite V. reflexivity.
+  unfold target_run. cbn. rewrite V. reflexivity.
 Qed.
 
 (* ------------------------------------------------------ C12_missing_pio_with_upload *)
 Lemma missing_pio_with_upload e ss :
   shape_ok ss = true -> validf e VPlatform VBoard = true -> upload e = true -> pio e = false ->
-  run e ss = ([RunPioVersion], Raised RuntimeError).
+  target_run e ss = ([RunPioVersion], Raised RuntimeError).
 Proof.
   intros OK V U Pp. destruct (shape_head _ OK) as (r & s2 & -> & _ & _).
-  unfold run. cbn. rewrite V, U. cbn. rewrite Pp. reflexivity.
+  unfold target_run. cbn. rewrite V, U. cbn. rewrite Pp. reflexivity.
 Qed.
 
 (* ------------------------------------------------------ events of a list, by parts *)
@@ -176,11 +176,11 @@ Qed.
 
 Lemma transpile_only_without_pio e e' ss :
   shape_ok ss = true -> same_but_pio e e' -> upload e = false ->
-  run e ss = run e' ss /\ (forall ev, In ev (fst (run e ss)) -> is_run ev = false).
+  target_run e ss = target_run e' ss /\ (forall ev, In ev (fst (target_run e ss)) -> is_run ev = false).
 Proof.
   intros OK SB UF. split.
-  - unfold run. rewrite (exec_same _ _ SB UF _ _ OK). reflexivity.
-  - intros ev I. unfold run in I.
+  - unfold target_run. rewrite (exec_same _ _ SB UF _ _ OK). reflexivity.
+  - intros ev I. unfold target_run in I.
     destruct (exec_list e ss) as [evs o] eqn:E. cbn in I.
     eapply (events_all e (fun ev => is_run ev = false)); [| exact OK | rewrite E; exact I].
     intros s x s' ev0 OK0 I0. eapply step_no_run; eauto.
@@ -196,7 +196,7 @@ Proof.
 Qed.
 
 Lemma tool_run_needs_upload e ss evs res :
-  shape_ok ss = true -> run e ss = (evs, res) ->
+  shape_ok ss = true -> target_run e ss = (evs, res) ->
   forall ev, In ev evs -> is_tool_run ev = true -> upload e = true.
 Proof.
   intros OK R ev I T. apply run_exec in R as (o & E & _).
@@ -434,7 +434,7 @@ Proof.
 Qed.
 
 Lemma no_write_before_checks e ss evs res pre w post :
-  shape_ok ss = true -> run e ss = (evs, res) -> evs = pre ++ w :: post -> is_write w = true ->
+  shape_ok ss = true -> target_run e ss = (evs, res) -> evs = pre ++ w :: post -> is_write w = true ->
   wq e pre.
 Proof.
   intros OK R E W. apply run_exec in R as (o & EX & _).
@@ -506,7 +506,7 @@ Qed.
 
 (* for ANY statement list *)
 Lemma failure_propagates e ss evs res pre ev post k :
-  run e ss = (evs, res) -> evs = pre ++ ev :: post -> ev_fault e ev = Some k ->
+  target_run e ss = (evs, res) -> evs = pre ++ ev :: post -> ev_fault e ev = Some k ->
   post = [] /\ res = Raised k.
 Proof.
   intros R E F. apply run_exec in R as (o & EX & ->).
@@ -556,7 +556,7 @@ Proof.
 Qed.
 
 Lemma raise_cause e ss evs k :
-  shape_ok ss = true -> run e ss = (evs, Raised k) ->
+  shape_ok ss = true -> target_run e ss = (evs, Raised k) ->
   (evs = [] /\ k = ValueError /\ validf e VPlatform VBoard = false) \/
   (exists pre last, evs = pre ++ [last] /\ ev_fault e last = Some k).
 Proof.
@@ -661,7 +661,7 @@ Proof.
 Qed.
 
 Lemma returns_emitted e ss evs res :
-  shape_ok ss = true -> run e ss = (evs, res) ->
+  shape_ok ss = true -> target_run e ss = (evs, res) ->
   (forall v, res = Returned v ->
      v = VCpp /\ In Emit evs /\ In (WriteMain VCpp) evs /\ In ini_ev evs) /\
   (no_fault e -> validf e VPlatform VBoard = true -> (upload e = true -> pio e = true) ->
@@ -699,7 +699,7 @@ Proof.
 Qed.
 
 Lemma writes_exact e ss evs res :
-  shape_ok ss = true -> run e ss = (evs, res) -> forall ev, In ev evs -> ev_exact ev.
+  shape_ok ss = true -> target_run e ss = (evs, res) -> forall ev, In ev evs -> ev_exact ev.
 Proof.
   intros OK R ev I. apply run_exec in R as (o & EX & _).
   eapply (events_all e ev_exact); [| exact OK | rewrite EX; exact I].
@@ -712,8 +712,8 @@ Definition env_of (valid up pi : bool) (flt : fpoint -> bool) : env :=
 
 Lemma pinned_refuted :
   exists e e', same_but_pio e e' /\ upload e = false /\
-    run e shape_pinned = ([RunPioVersion], Raised RuntimeError) /\
-    run e' shape_pinned =
+    target_run e shape_pinned = ([RunPioVersion], Raised RuntimeError) /\
+    target_run e' shape_pinned =
       ([RunPioVersion; ReadMain; Parse; Emit; Mkdtemp; Mkdir VTmp; WriteMain VCpp; ini_ev],
        Returned VCpp).
 Proof.
@@ -729,7 +729,7 @@ Proof. vm_compute. reflexivity. Qed.
 
 (* ------------------------------------------------------- C12_upload_iff, assembled *)
 Lemma upload_iff e ss evs res :
-  shape_ok ss = true -> run e ss = (evs, res) ->
+  shape_ok ss = true -> target_run e ss = (evs, res) ->
   (forall ev, In ev evs -> is_tool_run ev = true -> upload e = true) /\
   (upload e = true -> pio e = true -> validf e VPlatform VBoard = true -> no_fault e ->
      exists a c, evs = a ++ RunBuild VTmp :: RunUpload VTmp :: c /\
